@@ -6,7 +6,8 @@ use crate::common::*;
 use crate::w_pools::*;
 use crate::w_vault as wv;
 use crate::w_vault::{Act, Op, UParams};
-use cosmwasm_std::Uint128;
+use cosmwasm_std::{Addr, Uint128};
+use cw_multi_test::Executor;
 use serde_json::json;
 
 fn u(x: u128) -> Uint128 { Uint128::new(x) }
@@ -23,6 +24,14 @@ fn prep_pool(w: &mut PoolWorld, funded: bool) {
         // large enough that the pending protocol fee exceeds the collection threshold (CollectProtocolFees really moves funds)
         assert_eq!(w.exec(P_PROVIDE, 10_000_000), 0, "setup provide");
         assert_eq!(w.exec(P_SWAP_DIRECT, 20_000_000), 0, "setup swap");
+        // a three-asset pool is paused in the middle of an amplification ramp (100 -> 1000 over 20 000 blocks, 5 000 of them gone)
+        if !w.kind.is_pair() {
+            let h = w.app.block_info().height;
+            let r = w.app.execute_contract(Addr::unchecked(OWNER), w.factory.clone(), &white_whale_std::pool_network::factory::ExecuteMsg::UpdateTrioConfig { trio_addr: w.pool.to_string(), owner: None,
+                fee_collector_addr: None, pool_fees: None, feature_toggle: None, amp_factor: Some(white_whale_std::pool_network::trio::RampAmp { future_a: 1000, future_block: h + 20_000 }) }, &[]);
+            assert!(r.is_ok(), "setup ramp");
+            w.app.update_block(|b| { b.height += 5_000; b.time = b.time.plus_seconds(25_000); });
+        }
     }
 }
 
@@ -54,6 +63,14 @@ fn pool_case(out: &mut Out, kind: PoolKind, funded: bool, fl: u32, p: u32) {
             out.monitor_fail("C17", &format!("an operation whose own switch is on behaves differently because other switches are off: {}", path_name(p)), replay.clone());
         }
         if back != 0 || a.flags() != (true, true, true) { out.monitor_fail("C17", "the owner could not re-enable the switches", replay.clone()); }
+        // "re-enabling restores the previous behaviour" also later on: 30 000 blocks on (any amplification ramp has ended) the pool that was
+        // paused and the one that never was trade alike (only compared when they were alike before)
+        if a.dump() == b.dump() {
+            for w in [&mut a, &mut b] { w.app.update_block(|bl| { bl.height += 30_000; bl.time = bl.time.plus_seconds(150_000); }); }
+            let (la, lb) = (a.exec(P_SWAP_DIRECT, x), b.exec(P_SWAP_DIRECT, x));
+            out.monitor_evals += 1;
+            if la != lb || a.dump() != b.dump() { out.monitor_fail("C17", "30 000 blocks after the switches were restored the pool trades differently from one that was never paused", replay.clone()); }
+        }
         // ---- correspondence with the gate machine
         let vis = class_visible(p);
         let c1n = if c1 != 0 && (!vis || tc != 0) { 1 } else { c1 };
@@ -206,6 +223,47 @@ fn vaults(out: &mut Out) {
     }
 }
 
+
+/// The operator's only path to a vault's switches is the factory's UpdateVaultConfig { vault_addr }. A vault that was removed from the
+/// registry and replaced (RemoveVault + CreateVault for the same asset) is still a live contract the factory owns: pausing it pauses IT,
+/// and the vault that replaced it keeps working. (No model counterpart: monitor-only probe.)
+fn replaced_vault_probe(out: &mut Out) {
+    use white_whale_std::vault_network::vault as vmsg;
+    use white_whale_std::vault_network::vault_factory as fmsg;
+    let fees = (DEC / 100, DEC / 200, DEC / 1000);
+    for which in 0..3usize {
+        let mut w = match wv::deploy(false, fees, [0, 9_000_000, 5_000_000, 3_000_000, 3_000_000]) { Ok(w) => w, Err(_) => return };
+        let rp = json!({"kind": "replaced_vault_probe", "script": "vault v1 (native asset) gets a deposit; RemoveVault; CreateVault for the same asset (v2); UpdateVaultConfig { vault_addr: v1, one switch off }; \
+                        the switch is off on v1 and on on v2; the operation is refused by v1 and accepted by v2", "switch": (["deposit", "withdraw", "flash_loan"][which])});
+        let denom = wv::native_denom(fees).to_string();
+        let (owner, fac, v1) = (Addr::unchecked(wv::FOWNER), w.factory.clone(), w.vault.clone());
+        let dep = |app: &mut cw_multi_test::App, v: &Addr, who: &str, x: u128| app.execute_contract(Addr::unchecked(who), v.clone(), &vmsg::ExecuteMsg::Deposit { amount: u(x) }, &[cosmwasm_std::coin(x, denom.clone())]).is_ok();
+        out.monitor_evals += 1;
+        if !dep(&mut w.app, &v1, "alice", 1_000_000) { out.monitor_fail("C17", "probe: the first deposit failed", rp.clone()); continue; }
+        let info = w.asset.clone();
+        if w.app.execute_contract(owner.clone(), fac.clone(), &fmsg::ExecuteMsg::RemoveVault { asset_info: info.clone() }, &[]).is_err() { out.count("probe:remove_vault_refused"); continue; }
+        if w.app.execute_contract(owner.clone(), fac.clone(), &fmsg::ExecuteMsg::CreateVault { asset_info: info.clone(), fees: wv::vfee(fees.0, fees.1, fees.2), token_factory_lp: false }, &[]).is_err() { out.count("probe:recreate_refused"); continue; }
+        let v2: Option<String> = w.app.wrap().query_wasm_smart(&fac, &fmsg::QueryMsg::Vault { asset_info: info }).unwrap_or(None);
+        let v2 = match v2 { Some(a) if a != v1.to_string() => Addr::unchecked(a), _ => { out.monitor_fail("C17", "probe: the re-created vault is not registered", rp.clone()); continue; } };
+        if !dep(&mut w.app, &v2, "bob", 1_000_000) { out.monitor_fail("C17", "probe: a deposit into the new vault failed", rp.clone()); continue; }
+        let off = |i: usize| if which == i { Some(false) } else { None };
+        let params = vmsg::UpdateConfigParams { flash_loan_enabled: off(2), deposit_enabled: off(0), withdraw_enabled: off(1), new_owner: None, new_vault_fees: None, new_fee_collector_addr: None };
+        if w.app.execute_contract(owner.clone(), fac.clone(), &fmsg::ExecuteMsg::UpdateVaultConfig { vault_addr: v1.to_string(), params }, &[]).is_err() {
+            out.monitor_fail("C17", "the operator could not pause a vault the factory owns (removed from the registry and replaced)", rp.clone()); continue;
+        }
+        let cfg = |app: &cw_multi_test::App, v: &Addr| -> [bool; 3] { let c: vmsg::Config = app.wrap().query_wasm_smart(v, &vmsg::QueryMsg::Config {}).unwrap(); [c.deposit_enabled, c.withdraw_enabled, c.flash_loan_enabled] };
+        let (c1, c2) = (cfg(&w.app, &v1), cfg(&w.app, &v2));
+        let mut want1 = [true; 3]; want1[which] = false;
+        if c1 != want1 { out.monitor_fail("C17", &format!("the switches of the vault named in UpdateVaultConfig are {:?}, expected {:?}", c1, want1), rp.clone()); }
+        if c2 != [true; 3] { out.monitor_fail("C17", &format!("pausing one vault changed the switches of another vault: {:?}", c2), rp.clone()); }
+        if which == 0 {
+            if dep(&mut w.app, &v1, "alice", 500_000) { out.monitor_fail("C17", "a deposit into the paused vault was accepted", rp.clone()); }
+            if !dep(&mut w.app, &v2, "bob", 500_000) { out.monitor_fail("C17", "a deposit into a vault nobody paused was refused", rp.clone()); }
+        }
+        out.count("probe:replaced_vault");
+    }
+}
+
 pub fn run(args: &Args) {
     let mut out = Out::new(&args.out);
     out.rule = "exhaustive: 2^3 switch combinations x every entry path x {empty, funded} x {pair(native,native), pair(native,cw20), 3pool(nnn), 3pool(nnc)} and x {native, cw20} vault; \
@@ -216,6 +274,7 @@ pub fn run(args: &Args) {
         let v: serde_json::Value = serde_json::from_str(&text).unwrap_or(json!({}));
         let f = v.get("failing_input").unwrap_or(&v).clone();
         let g = |k: &str| f.get(k).and_then(|x| x.as_u64());
+        if f.get("kind").and_then(|x| x.as_str()) == Some("replaced_vault_probe") { replay_probe(&mut out, &mut |o| replaced_vault_probe(o)); }
         match (f.get("kind").and_then(|x| x.as_str()), g("switch_bits"), g("path_index"), f.get("funded").and_then(|x| x.as_bool())) {
             (Some("pool_gate"), Some(fl), Some(p), Some(funded)) => {
                 let kind = [PoolKind::PairNN, PoolKind::PairNC, PoolKind::TrioNNN, PoolKind::TrioNNC][g("pool_index").unwrap_or(0) as usize % 4];
@@ -245,5 +304,6 @@ pub fn run(args: &Args) {
     }
     pools(&mut out);
     vaults(&mut out);
+    replaced_vault_probe(&mut out);
     out.finish();
 }
